@@ -390,10 +390,52 @@ fn judge(case: &Case, ex: &Extract, obs: &mut Obs, shrunk: bool) {
             unscaled_hits += 1;
         }
     }
+    // recognised defect (nu-SVC, non-linear kernel): SolverState::solve stores the rows x_i with
+    // |alpha_i| > 100 eps_mach *before* fit_nu divides the coefficients by r, while weighted_sum filters the
+    // published (divided) coefficients with the same threshold. A coefficient between the two thresholds makes
+    // the two selections differ, and from there on every coefficient is zipped with a foreign row.
+    let mut misaligned: Option<(usize, usize, usize)> = None; // (stored rows, filtered coefficients, first shifted position)
+    if mismatches > 0 && matches!(case.task, Task::NuSvc { .. }) && case.kernel != Kern::Linear {
+        let rows: Vec<usize> = (0..n).filter(|i| alpha[*i].abs() * nu_r > sv_thr).collect();
+        let coef: Vec<usize> = (0..n).filter(|i| alpha[*i].abs() > sv_thr).collect();
+        if rows != coef {
+            let first_shift = rows.iter().zip(&coef).position(|(a, b)| a != b).unwrap_or(rows.len().min(coef.len()));
+            let mut all = true;
+            for i in 0..n + m {
+                let x = if i < n { &case.x[i] } else { &case.fresh[i - n] };
+                let mut v = 0.0;
+                let mut abs = 0.0;
+                for (r, c) in rows.iter().zip(&coef) {
+                    let t = alpha[*c] * kernel(&case.kernel, &case.x[*r], x);
+                    v += t;
+                    abs += t.abs();
+                }
+                if (ex.ws[i] - v).abs() > dec_rel * abs + underflow {
+                    all = false;
+                    break;
+                }
+            }
+            if all {
+                misaligned = Some((rows.len(), coef.len(), first_shift));
+            }
+        }
+    }
     if mismatches > 0 {
         ws_ok = false;
         let (i, w, d) = first_bad.unwrap_or((0, 0.0, 0.0));
-        if is_nu_linear && unscaled_hits == mismatches {
+        if let Some((nrows, ncoef, first_shift)) = misaligned {
+            obs.class("nu_svc_support_rows_misaligned");
+            obs.fail(
+                // independent of shrinking: the exact wrong value is recognised
+                "nu-svc:support-rows-selected-before-rescaling",
+                format!(
+                    "nu-SVC: weighted_sum(point {i}) = {w} but sum_j alpha_j K(x_j, x) = {d}; weighted_sum equals, on all {} points, the zip of the {nrows} rows \
+                     with |alpha_i * r| > 100 eps (selected in solve() before the division by r = {nu_r}) with the {ncoef} published coefficients \
+                     with |alpha_i| > 100 eps: from position {first_shift} on every coefficient multiplies the kernel value of a foreign row",
+                    n + m
+                ),
+            );
+        } else if is_nu_linear && unscaled_hits == mismatches {
             obs.class("nu_svc_linear_hyperplane_unscaled");
             obs.fail(
                 // independent of shrinking: the exact wrong value is recognised
